@@ -1215,6 +1215,32 @@ func genConfig(repo string) *leanFile {
 
 func genPlugin(repo string) *leanFile {
 	l := &leanFile{name: "Plugin"}
+	// plugin.go (*LLA).Apply: is the option only appended for a 48-bit hardware address
+	if pf := load(repo, "internal/plugin/plugin.go"); pf != nil {
+		if fd := pf.fn("LLA.Apply"); fd != nil {
+			handled := false
+			ast.Inspect(fd.Body, func(n ast.Node) bool {
+				if is, ok := n.(*ast.IfStmt); ok {
+					var b strings.Builder
+					printer.Fprint(&b, fset, is.Cond)
+					c := strings.ReplaceAll(b.String(), " ", "")
+					returnsNil := false
+					for _, st := range is.Body.List {
+						if r, ok := st.(*ast.ReturnStmt); ok && len(r.Results) == 1 && exprString(r.Results[0]) == "nil" {
+							returnsNil = true
+						}
+					}
+					if returnsNil && strings.Contains(c, "len(l.Addr)!=6") {
+						handled = true
+					}
+				}
+				return true
+			})
+			l.Bool("llaRequiresEthernet", handled, "(*LLA).Apply returns without appending the option unless len(l.Addr) == 6")
+		} else {
+			failf("plugin.go: (*LLA).Apply not found")
+		}
+	}
 	// addresser_linux.go routesByIndex: is a route message without destination attribute and with
 	// destination length 0 (the kernel's rendering of a default route) given the destination ::
 	// before the invariant check on the destination
